@@ -22,9 +22,11 @@ type c17Service struct {
 	calls       *[]string
 }
 
-func (s c17Service) RegisterResponseCallback(string, serviceexported.ResponseCallback) error { return nil }
-func (s c17Service) RegisterStateCallback(string, serviceexported.StateCallback) error       { return nil }
-func (s c17Service) RegisterModuleService(string, *serviceexported.ModuleService) error      { return nil }
+func (s c17Service) RegisterResponseCallback(string, serviceexported.ResponseCallback) error {
+	return nil
+}
+func (s c17Service) RegisterStateCallback(string, serviceexported.StateCallback) error  { return nil }
+func (s c17Service) RegisterModuleService(string, *serviceexported.ModuleService) error { return nil }
 func (s c17Service) GetRequestContext(sdk.Context, tmbytes.HexBytes) (serviceexported.RequestContext, bool) {
 	return *s.rc, s.exists
 }
@@ -61,15 +63,17 @@ func c17Env(history int, latest uint64) (*vEnv, Keeper, c17Service, types.Feed) 
 	// batches that failed (threshold not met) stored no value: the batch counters of the stored values may have
 	// a gap after the first value, and the batch reported now may come after further failed batches
 	gapIn, gapAfter := uint64(verifChoice("failedBatchInHistory", 2)), uint64(verifChoice("failedBatchBefore", 2))
+	// the batch counters run from 1 - or straddle a byte boundary of the counter (254, 255, 256, 257, ...)
+	base := uint64(253 * verifChoice("countersAround256", 2))
 	batchOf := func(b int) uint64 {
 		if b >= 2 {
-			return uint64(b) + gapIn
+			return base + uint64(b) + gapIn
 		}
-		return uint64(b)
+		return base + uint64(b)
 	}
 	rc := &serviceexported.RequestContext{State: serviceexported.RUNNING, BatchCounter: batchOf(history) + 1 + gapAfter}
 	if history == 0 {
-		rc.BatchCounter = 1 + gapAfter
+		rc.BatchCounter = base + 1 + gapAfter
 	}
 	calls := []string{}
 	sk := c17Service{rc: rc, exists: true, calls: &calls}
